@@ -5,6 +5,7 @@ import BacVerif.Props.C10
 #print axioms BacVerif.C10.good_init
 #print axioms BacVerif.C10.recvAll_append
 #print axioms BacVerif.C10.dropped_is_noop
+#print axioms BacVerif.C10.netmsg_leaves_transactions
 #print axioms BacVerif.C10.dropped_leaves_state
 #print axioms BacVerif.C10.dropped_absent
 #print axioms BacVerif.C10.queued_request_answered
